@@ -113,6 +113,18 @@ theorem getMove_generated {g : Game P M} {o : Oracle M} {Q : M → Prop} {N D : 
       EngOK g Q D x.2 ∧ (x.1 = g.zeroMove ∨ (Q x.1 ∧ Accepts g p x.1))) :=
   getMove_prov hP hord cfg p hN hgen hmove hev s hs hD
 
+/-- **`analyzeAll_heads_generated`**: the same for `AnalyzeAll` — every line it lists consists of `Q`-moves and starts with
+a move accepted in the analysed position (the lines it adds to `Analyze`'s PV moreover replay in full:
+`Search.analyzeAllFrom_q`, `LineOK`) -/
+theorem analyzeAll_heads_generated {g : Game P M} {o : Oracle M} {Q : M → Prop} {N D : P → Prop}
+    (hP : Prov g o Q N D) (hord : OrderOK o) (cfg : Search.Cfg) (p : P) (hN : N p)
+    (hgen : GenOK g p) (hmove : ∃ m ∈ g.allMoves p, Accepts g p m)
+    (hev : ∀ m c, g.apply p m = .ok c → g.eval c ≤ Facts.maxEval)
+    (s : Eng M) (hs : EngOK g Q D s) (hD : s.hasTable = true → D p) :
+    Sat (analyzeAll g cfg o p s) (fun x => EngOK g Q D x.2 ∧
+      ∀ l ∈ x.1.1, (∀ y ∈ l, Q y) ∧ ∃ y ys, l = y :: ys ∧ Accepts g p y) :=
+  analyzeAll_lines hP hord cfg p hN hgen hmove hev s hs hD
+
 /-- **provenance alone** needs nothing about the game: every move of the returned PV is a `Q`-move and the engine
 state stays `EngOK`, whatever the position (finished, without moves, …) -/
 theorem analyze_pv_provenance {g : Game P M} {o : Oracle M} {Q : M → Prop} {N D : P → Prop}
